@@ -41,6 +41,7 @@ CONFIGS = [
     ("ga_constrained", "ga_constrained", {}, "GA on lists (ConstrainedFitness)"),
     ("gp_typed_builtin", "gp_typed", {"variant": "builtin"}, "GP with ephemerals (typed, builtin types)"),
     ("gp_typed_heap", "gp_typed", {"variant": "heap"}, "GP with ephemerals (typed, user classes as types)"),
+    ("gp_typed_heap_b", "gp_typed", {"variant": "heap"}, "GP with ephemerals (typed, user classes as types; second evolution seed)"),
     ("gp_typed_sub", "gp_typed", {"variant": "sub"}, "GP with ephemerals (typed, bool < int: the super type inherits the subtype's entries)"),
     ("cma", "cma", {}, "CMA-ES"),
     ("cma_user", "cma", {"user": {"centroid": "ndarray"}}, "CMA-ES (user-supplied cmatrix and ndarray centroid)"),
@@ -231,7 +232,9 @@ def runtime_part(run, jobs):
                                   jobs.submit(dict(base, mode="full", seed=seed2)))
             h2 = str(rng.randrange(1, 2 ** 32 - 1))
             entry["rep"] = [(dict(hashseed=h2, perturb=p), jobs.submit(dict(base, mode="full", perturb=p), hashseed=h2))
-                            for p in (([rng.choice([1, 3, 6])] if light else [1, 3, 6]) if not thorough else [0, 1, 2, 3, 5, 6])] \
+                            for p in (([rng.choice([1, 3, 6])] if (light and not str(cfg).startswith("gp_typed")) else
+                                       ([1, 2, 3, 4, 5, 6, 7, 9, 11] if str(cfg).startswith("gp_typed_heap") else [1, 3, 6]))
+                                      if not thorough else [0, 1, 2, 3, 5, 6])] \
                 if "rerun" in kinds else []
             entry["save"] = {k: jobs.submit(dict(base, mode="save", k=k, protocols=e_protocols, ckpt=ck))
                              for k in range(0, e_ngen + 1)} if "resume" in kinds else {}
